@@ -67,6 +67,28 @@ def pairs(repo):
                     ks, s = repo.resolve_name(m, v.orelse.id)
                     if kf == "class" and ks == "class":
                         out.append((key, f, s, v))
+    if out:
+        return out
+    # another spelling of the table (tuples indexed by the flag, two tables, a helper ...): ask the function itself
+    from ..alg import Obj, RaisedInFragment
+    keys, anchor = [], g.node
+    for n in repo.walk_with_tables(g):
+        if isinstance(n, ast.Dict) and len(n.keys) >= 3 and all(k is not None and A.is_const(k) for k in n.keys):
+            keys, anchor = [A.const_value(k) for k in n.keys], n
+    env = {}
+    for nm in list(m.imports) + list(m.classes):
+        kind, obj = repo.resolve_name(m, nm)
+        if kind == "class":
+            env[nm] = Obj("class:" + nm, {"__cls__": obj})
+    for key in keys:
+        try:
+            kv = key if isinstance(key, str) else to_poly(key)
+            fast = Interp(env, {}, {}).call_function(g.node, [kv], {"do_tensorized_calc": True})
+            slow = Interp(env, {}, {}).call_function(g.node, [kv], {"do_tensorized_calc": False})
+        except (Undecided, RaisedInFragment, KeyError, TypeError, IndexError):
+            continue
+        if isinstance(fast, Obj) and isinstance(slow, Obj) and "__cls__" in fast.attrs and "__cls__" in slow.attrs:
+            out.append((key, fast.attrs["__cls__"], slow.attrs["__cls__"], anchor))
     return out
 
 
